@@ -263,7 +263,7 @@ class Gen:
         if r < 0.72:
             return self.seqset()
         if r < 0.8:
-            return self.ch([b'NOT ', b'not ', b'NOT  ', b'NOT']) + self.search_key(depth + 1)
+            return self.ch([b'NOT ', b'not ', b'NOT  ', b'NOT', b'NOT NOT ', b'not NOT  Not ']) + self.search_key(depth + 1)
         if r < 0.88:
             return b'OR' + self.sp() + self.search_key(depth + 1) + self.sp() + self.search_key(depth + 1)
         if r < 0.96:
